@@ -162,10 +162,8 @@ def judge_decode(ctx, sp, x, y, tr):
             ctx.count("witness_layouts_judged")
             judged = True
             if tr.events["split"] != sp.n_items - sp.min_bins:
-                ctx.violation("decoder-split-count",
-                              f"{tr.events['split']} splits observed, "
-                              f"n_items - min_bins = "
-                              f"{sp.n_items - sp.min_bins}", case)
+                # how the items come about is not part of the property
+                ctx.count("split_count_differs_from_n_items_minus_min_bins")
             if why is not None:
                 ctx.violation("generated-instance-witness-layout-infeasible",
                               "the layout reconstructed from the decoder's "
